@@ -92,6 +92,7 @@ class CallGraph:
         if self._param_funcs is not None:
             return self._param_funcs
         direct = {}
+        self._param_objs = {}   # (callee key, idx) -> {function name: Function as resolved where it was passed}
         self._passers = {}   # (callee key, idx, function name) -> set of keys of functions that pass it
         forward = []  # (callee key, idx, caller key, caller param idx)
         for f in self.prog.functions:
@@ -113,6 +114,10 @@ class CallGraph:
                         if r['kind'] == 'func':
                             direct.setdefault((tgt.key, i), set()).add(r['name'])
                             self._passers.setdefault((tgt.key, i, r['name']), set()).add(f.key)
+                            # a static function is only visible in the translation unit that passes it
+                            obj = self.prog.func(r['name'], f.tu)
+                            if obj is not None:
+                                self._param_objs.setdefault((tgt.key, i), {})[r['name']] = obj
                         elif r['kind'] == 'parm':
                             forward.append((tgt.key, i, f.key, r['index']))
         changed = True
@@ -124,6 +129,12 @@ class CallGraph:
                 if not src <= dst:
                     dst |= src
                     changed = True
+                so = self._param_objs.get((fk, j), {})
+                do = self._param_objs.setdefault((ck, i), {})
+                for nm, obj in so.items():
+                    if nm not in do:
+                        do[nm] = obj
+                        changed = True
                 for nm in src:
                     ps = self._passers.setdefault((ck, i, nm), set())
                     add = self._passers.get((fk, j, nm), set())
@@ -187,8 +198,9 @@ class CallGraph:
                 return self._names_to_targets([r['name']], func), 'direct'
             if r['kind'] == 'parm':
                 names = self._param_flow().get((func.key, r['index']))
+                objs = self._param_objs.get((func.key, r['index']), {})
                 if names:
-                    return self._names_to_targets(sorted(names), func), \
+                    return [objs.get(nm) or t for nm, t in zip(sorted(names), self._names_to_targets(sorted(names), func))], \
                         'parameter %s of %s' % (r['name'], func.name)
                 return None, 'function-pointer parameter %s never bound' % r['name']
             if r['kind'] == 'var':
